@@ -642,8 +642,10 @@ class BPAdapter:
         if fi.type == "message":
             mi = self.schema.msg(fi.msg)
             sub = self.build(elem_cls, mi, v)
-            if plain_position and not _bp_sow(sub):
+            if plain_position and not _bp_sow(sub) and self.empty_via != "fresh":
                 # present-but-empty: obtain a message that reports serialized_on_wire
+                # (empty_via="fresh" hands the freshly constructed object over as it is: whether THAT counts as present is
+                # the library's rule - a type without fields does, others do not - and only differential checks use it)
                 sub = elem_cls().parse(b"") if self.empty_via == "parse" else elem_cls().from_dict({})
             return sub
         if fi.type == "enum":
